@@ -8,6 +8,8 @@ import (
 	"strings"
 	"testing"
 
+	"k8s.io/apiserver/pkg/authentication/user"
+	"k8s.io/apiserver/pkg/authorization/authorizer"
 	"pgregory.net/rapid"
 
 	proxyv1alpha1 "github.com/kubewharf/kubegateway/pkg/apis/proxy/v1alpha1"
@@ -137,6 +139,24 @@ func newCluster(t interface{ Fatalf(string, ...interface{}) }, name string, poli
 	return ci
 }
 
+// midSyncAttrs calls onRead whenever the matcher reads an attribute.
+type midSyncAttrs struct {
+	authorizer.Attributes
+	onRead func()
+}
+
+func (m *midSyncAttrs) GetUser() user.Info     { m.onRead(); return m.Attributes.GetUser() }
+func (m *midSyncAttrs) GetVerb() string        { m.onRead(); return m.Attributes.GetVerb() }
+func (m *midSyncAttrs) GetAPIGroup() string    { m.onRead(); return m.Attributes.GetAPIGroup() }
+func (m *midSyncAttrs) GetResource() string    { m.onRead(); return m.Attributes.GetResource() }
+func (m *midSyncAttrs) GetSubresource() string { m.onRead(); return m.Attributes.GetSubresource() }
+func (m *midSyncAttrs) GetName() string        { m.onRead(); return m.Attributes.GetName() }
+func (m *midSyncAttrs) GetPath() string        { m.onRead(); return m.Attributes.GetPath() }
+func (m *midSyncAttrs) IsResourceRequest() bool {
+	m.onRead()
+	return m.Attributes.IsResourceRequest()
+}
+
 func clusterIndex(ci *clusters.ClusterInfo, req gen.Request) (int, error) {
 	p, err := ci.MatchAttributes(req.Attributes())
 	if err != nil {
@@ -156,7 +176,7 @@ func clusterIndex(ci *clusters.ClusterInfo, req gen.Request) (int, error) {
 // reference, depends only on (attributes, current policy list): same twice, same on a fresh ClusterInfo, same after
 // unrelated spec churn, and follows the current list after a policy update.
 func TestPropClusterInfo(t *testing.T) {
-	sub := stats.NewSub("clusterinfo-metamorphic", "rapid: policy list A, policy list B (one time in six empty: every policy removed), 3 requests; ClusterInfo synced A -> (unrelated churn) -> B -> A; oracle = reference index for the list current at each point + equality with a fresh ClusterInfo; non-trivial = reference answers for A and B differ for some request")
+	sub := stats.NewSub("clusterinfo-metamorphic", "rapid: policy list A, policy list B (one time in six empty: every policy removed), 3 requests; ClusterInfo synced A -> (unrelated churn) -> B (the update runs inside the k-th attribute read of a request being routed: that request gets the decision for A or for B, never a mix) -> A; oracle = reference index for the list current at each point + equality with a fresh ClusterInfo; non-trivial = reference answers for A and B differ for some request")
 	stats.Check(t, stats.N(4000, 60000), func(t *rapid.T) {
 		a := gen.GenPolicies(t, "A", 3, 2)
 		b := gen.GenPolicies(t, "B", 3, 2)
@@ -196,7 +216,53 @@ func TestPropClusterInfo(t *testing.T) {
 		check("after unrelated churn", ci, a)
 		uc2 := &proxyv1alpha1.UpstreamCluster{ObjectMeta: metav1.ObjectMeta{Name: "c1"}}
 		uc2.Spec.DispatchPolicies = b
-		if err := ci.Sync(uc2); err != nil {
+		// the update to B arrives WHILE a request is being routed: the Sync runs inside the k-th attribute the matcher
+		// reads. The decision must be the one for A or the one for B - the published list is a snapshot, never a mix.
+		// (B's policies get other schema names so that A[i] and B[i] can be told apart.)
+		bq := make([]proxyv1alpha1.DispatchPolicy, len(b))
+		for i := range b {
+			bq[i] = *b[i].DeepCopy()
+			bq[i].FlowControlSchemaName = fmt.Sprintf("q%d", i)
+		}
+		uc2.Spec.DispatchPolicies = bq
+		racing := reqs[rapid.IntRange(0, len(reqs)-1).Draw(t, "racingRequest")]
+		at := rapid.IntRange(1, 12).Draw(t, "syncInsideAttributeRead")
+		reads := 0
+		synced := false
+		ma := &midSyncAttrs{Attributes: racing.Attributes(), onRead: func() {
+			reads++
+			if reads == at && !synced {
+				synced = true
+				if err := ci.Sync(uc2); err != nil {
+					t.Fatalf("harness: %v", err)
+				}
+			}
+		}}
+		picker, merr := ci.MatchAttributes(ma)
+		gotName := "<no policy>"
+		if merr == nil {
+			gotName = picker.FlowControlName()
+		} else if merr != clusters.ErrNoRouterRuleMatches {
+			t.Fatalf("MatchAttributes during an update: %v", merr)
+		}
+		name := func(prefix string, idx int) string {
+			if idx < 0 {
+				return "<no policy>"
+			}
+			return fmt.Sprintf("%s%d", prefix, idx)
+		}
+		wantA, wantB := name("p", refmodel.MatchPolicies(racing, a)), name("q", refmodel.MatchPolicies(racing, b))
+		if synced && gotName != wantA && gotName != wantB {
+			t.Fatalf("a request routed while the policy list was updated got %s; with the old list it gets %s, with the new one %s (the update ran inside attribute read %d)\nrequest: %s\nold: %s\nnew: %s", gotName, wantA, wantB, at, racing, gen.PoliciesString(a), gen.PoliciesString(b))
+		}
+		if synced {
+			sub.Class("request-routed-during-a-policy-update")
+		} else if err := ci.Sync(uc2); err != nil {
+			t.Fatalf("harness: %v", err)
+		}
+		uc2b := &proxyv1alpha1.UpstreamCluster{ObjectMeta: metav1.ObjectMeta{Name: "c1"}}
+		uc2b.Spec.DispatchPolicies = b
+		if err := ci.Sync(uc2b); err != nil {
 			t.Fatalf("harness: %v", err)
 		}
 		check("after sync B", ci, b)
